@@ -237,3 +237,62 @@ def log_block_pred(prog, fn, consts, kinds=('failure',), codes=None, code_pred=N
             return True
         return False
     return pred, sites
+
+
+class TermGuard:
+    """guard on any atom whose canonical term matches a regex (field reads, comparisons, calls), with a wanted value:
+    want in true|false|ok|err|some|none or an int (discriminant value)"""
+
+    def __init__(self, T, pat, want, name=None, call_pat=None):
+        self.T = T
+        self.re = re.compile(pat)
+        self.want = want
+        self.name = name or ('%s=%s' % (pat, want))
+        self.call_re = re.compile(call_pat) if call_pat else None
+        self._cache = {}
+
+    def matches_call(self, fn, bi, t):
+        if self.call_re is not None:
+            return bool(self.call_re.search(t['fd']))
+        # calls are tracked only when their own term matches
+        k = (fn.name, bi)
+        r = self._cache.get(k)
+        if r is None:
+            try:
+                r = bool(self.re.search(self.T.call_term(fn, bi)))
+            except Exception:
+                r = False
+            self._cache[k] = r
+        return r
+
+    def _term(self, fn, a):
+        k = (fn.name, a)
+        r = self._cache.get(k)
+        if r is None:
+            try:
+                r = self.T.atom_term(fn, a)
+            except Exception:
+                r = ''
+            self._cache[k] = r
+        return r
+
+    def track_atom(self, fn, a):
+        inner = a[1] if a[0] in ('ok', 'discr') else a
+        return bool(self.re.search(self._term(fn, inner)))
+
+    def holds(self, fn, facts):
+        out = []
+        for a, v in facts.items():
+            inner = a[1] if a[0] in ('ok', 'discr') else a
+            if not self.re.search(self._term(fn, inner)):
+                continue
+            if isinstance(self.want, int):
+                ok = (a[0] == 'discr' and v == self.want)
+            elif a[0] == 'ok':
+                ok = v == {'ok': 1, 'some': 1, 'err': 0, 'none': 0}.get(self.want, -1)
+            else:
+                ok = v == {'true': 1, 'false': 0}.get(self.want, -1)
+            if ok:
+                sites = [s for s in __import__('lib').call_sites_in(a)]
+                out.append(max(sites) if sites else 1000000)
+        return out
